@@ -56,6 +56,13 @@ def step (s : St) : List String → St × List String
                     (kvInt rest "others" = 1) s.bank tx
     let s' := { s with bank := b }
     if (kv rest "via").getD "" = "block" then (s', [r ++ " users " ++ users s']) else (s', [r ++ " " ++ snap s'])
+  | ["send", src, dst, c] =>
+    -- a plain bank transfer between two named accounts (e.g. a deposit into the x/fee module account)
+    let coins := parseCoins (((c.splitOn "=").getD 1 "-"))
+    let r := coins.foldl (fun (acc : Option Bank) co => acc.bind fun b => match b.send src dst co.denom co.amount with | .ok b' => some b' | _ => none) (some s.bank)
+    (match r with
+     | some b => let s' := { s with bank := b }; (s', ["ok " ++ snap s'])
+     | none => (s, ["err " ++ snap s]))
   | ["burn", c] =>
     let (b, r) := burnStep s.cfg s.bank (parseCoins (((c.splitOn "=").getD 1 "-")))
     let s' := { s with bank := b }
